@@ -96,8 +96,8 @@ theorem C07_reject_more (ho : OrderedOps o) (h : (ctlDecide o p hm c e).1 = .rej
     (ctlDecide o p hm c e).2.h = c.h * p.rejDec ∧
     0 < (ctlDecide o p hm c e).2.h ∧ (ctlDecide o p hm c e).2.h < c.h := by
   rw [ho.reject_next p hm c e h]
-  simp only [hrm, if_true]
-  exact ⟨rfl, mul_pos hh h1, by simpa using mul_lt_mul_of_pos_left h2 hh⟩
+  simp only [hrm, if_true, true_and]
+  exact ⟨mul_pos hh h1, by simpa using mul_lt_mul_of_pos_left h2 hh⟩
 
 /-- every rejection shrinks the step (`0 < H' < H`) provided `pow` behaves like a power on `[1, ∞)`:
     `1 ≤ x → 1 ≤ pow x (1/order)` (true for the real power with `order > 0`), `fmin < 1 ≤ fmax`,
@@ -137,7 +137,7 @@ theorem C07_first_step (ho : OrderedOps o) (Y : Mat K) (sc : Scratch K) (fuel : 
     hmaxEff o p T = (if p.hmax = 0 then T else min T p.hmax) ∧
     hstartEff o cs p T = (if p.hstart = 0 then max p.hmin cs.deltaMin else min (hmaxEff o p T) p.hstart) ∧
     initialH o cs p T =
-      (if |min (max |p.hmin| |hstartEff o cs p T|) |hmaxEff o p T|| ≤ cs.ten * p.roundOff then cs.deltaMin
+      (if |min (max |p.hmin| |hstartEff o cs p T|) (|hmaxEff o p T|)| ≤ cs.ten * p.roundOff then cs.deltaMin
        else min (max |p.hmin| |hstartEff o cs p T|) |hmaxEff o p T|) :=
   ⟨rosSolve_eq o cs s p kc atol rtol T Y sc fuel, ho.hmaxEff_eq p T, ho.hstartEff_eq cs p T,
    ho.initialH_eq cs p T⟩
@@ -246,8 +246,10 @@ example (t : Gen.RosTable) : ∀ x : ℚ, 1 ≤ x → 1 ≤ ratOps.pow x (1 / (d
   fun _ h => h
 
 /-- a concrete rejection: `H = 1000`, error `25`, second consecutive rejection → `H' = 1000·fmin` -/
-example : (ctlDecide ratOps (defaultParams Gen.ros2) 1000 ⟨0, 1000, true, false⟩ 25) =
-    (.reject, ⟨0, 1000 * Gen.default_factor_min, true, true⟩) := by
+example :
+    let r := ctlDecide ratOps (defaultParams Gen.ros2) 1000 ⟨0, 1000, true, false⟩ 25
+    r.1 = .reject ∧ r.2.t = 0 ∧ r.2.h = 1000 * Gen.default_factor_min ∧ r.2.rejectLast = true ∧
+      r.2.rejectMore = true := by
   decide +kernel
 
 /-- without `fmin < 1` a rejection need not shrink `H` (`fmin = fmax = 1` keeps `H`) -/
